@@ -113,6 +113,7 @@ structure LocAt (f : Nat) : Prop where
     RRel r r' (parseArgsLoop f close msg ts) (parseArgsLoop f close msg ts')
   operand : ∀ r r' ts ts', TS r r' ts ts' → RRel r r' (parseOperand f ts) (parseOperand f ts')
   suffix : ∀ e r r' ts ts', TS r r' ts ts' → RRel r r' (parseSuffix f e ts) (parseSuffix f e ts')
+  subs : ∀ e r r' ts ts', TS r r' ts ts' → RRel r r' (parseSubs f e ts) (parseSubs f e ts')
   filters : ∀ e r r' ts ts', TS r r' ts ts' → RRel r r' (parseFilters f e ts) (parseFilters f e ts')
   simple : ∀ r r' ts ts', TS r r' ts ts' → RRel r r' (parseSimple f ts) (parseSimple f ts')
   attrs : ∀ e r r' ts ts', TS r r' ts ts' → RRel r r' (parseAttrs f e ts) (parseAttrs f e ts')
@@ -121,7 +122,7 @@ structure LocAt (f : Nat) : Prop where
 
 theorem locAt_zero : LocAt 0 := by
   constructor <;> intros <;> simp only [parseExpression, parseConditional, parseBinaryPrec,
-    parseLoop, parseTest, parseArgs, parseArgsLoop, parseOperand, parseSuffix, parseFilters, parseSimple,
+    parseLoop, parseTest, parseArgs, parseArgsLoop, parseOperand, parseSuffix, parseSubs, parseFilters, parseSimple,
     parseAttrs, parseMap, parseMapLoop] <;> exact RRel.err _
 
 theorem loc_expr (f : Nat) (ih : LocAt f) (r r' ts ts' : List Token) (h : TS r r' ts ts') :
@@ -389,6 +390,25 @@ theorem loc_suffix (f : Nat) (ih : LocAt f) (e : Expr) (r r' ts ts' : List Token
       · exact RRel.pure _ (TS.cons hx ht)
 
 
+theorem loc_subs (f : Nat) (ih : LocAt f) (e : Expr) (r r' ts ts' : List Token) (h : TS r r' ts ts') :
+    RRel r r' (parseSubs (f+1) e ts) (parseSubs (f+1) e ts') := by
+  unfold parseSubs
+  rcases h.cases with ⟨d, hd, rfl, rfl⟩ | ⟨x, t, t', hx, rfl, rfl, ht⟩
+  · simp only [hd.isP, Bool.false_eq_true, if_false]
+    exact RRel.pure _ (TS.end_ hd)
+  · simp only
+    split
+    · refine RRel.bind (ih.expr _ _ _ _ ht) ?_
+      intro i u u' hu
+      rcases hu.cases with ⟨d, hd, rfl, rfl⟩ | ⟨y, v, v', hy, rfl, rfl, hv⟩
+      · simp only [hd.isP, Bool.false_eq_true, if_false]
+        exact RRel.perr _
+      · simp only
+        split
+        · exact ih.subs _ _ _ _ _ hv
+        · exact RRel.perr _
+    · exact RRel.pure _ (TS.cons hx ht)
+
 theorem EndTok.kindbeq {d : Token} (h : EndTok d) :
     (d.kind == NAME) = false ∧ (d.kind == NUMBER) = false ∧ (d.kind == STRING) = false ∧
     (d.kind == OPERATOR) = false ∧ (d.kind == PUNCT) = false := by
@@ -497,13 +517,19 @@ theorem loc_simple (f : Nat) (ih : LocAt f) (r r' ts ts' : List Token) (h : TS r
   · dsimp only
     refine RRel.ite (fun _ => ?_) (fun _ => ?_)
     · refine RRel.bind (ih.simple _ _ _ _ ht) ?_
-      intro e u u' hu; exact RRel.pure _ hu
+      intro e u u' hu
+      refine RRel.bind (ih.subs e _ _ _ _ hu) ?_
+      intro e2 u2 u2' hu2; exact RRel.pure _ hu2
     refine RRel.ite (fun _ => ?_) (fun _ => ?_)
     · refine RRel.bind (ih.simple _ _ _ _ ht) ?_
-      intro e u u' hu; exact RRel.pure _ hu
+      intro e u u' hu
+      refine RRel.bind (ih.subs e _ _ _ _ hu) ?_
+      intro e2 u2 u2' hu2; exact RRel.pure _ hu2
     refine RRel.ite (fun _ => ?_) (fun _ => ?_)
     · refine RRel.bind (ih.simple _ _ _ _ ht) ?_
-      intro e u u' hu; exact RRel.pure _ hu
+      intro e u u' hu
+      refine RRel.bind (ih.subs e _ _ _ _ hu) ?_
+      intro e2 u2 u2' hu2; exact RRel.pure _ hu2
     refine RRel.ite (fun _ => ?_) (fun _ => ?_)
     · exact RRel.pure _ ht
     refine RRel.ite (fun _ => ?_) (fun _ => ?_)
@@ -550,6 +576,7 @@ theorem locAt_succ (f : Nat) (ih : LocAt f) : LocAt (f+1) where
   argsLoop := loc_argsLoop f ih
   operand := loc_operand f ih
   suffix := loc_suffix f ih
+  subs := loc_subs f ih
   filters := loc_filters f ih
   simple := loc_simple f ih
   attrs := loc_attrs f ih
@@ -576,6 +603,7 @@ structure EMonoAt (f : Nat) : Prop where
   argsLoop : ∀ close msg ts, FLe (parseArgsLoop f close msg ts) (parseArgsLoop (f+1) close msg ts)
   operand : ∀ ts, FLe (parseOperand f ts) (parseOperand (f+1) ts)
   suffix : ∀ e ts, FLe (parseSuffix f e ts) (parseSuffix (f+1) e ts)
+  subs : ∀ e ts, FLe (parseSubs f e ts) (parseSubs (f+1) e ts)
   filters : ∀ e ts, FLe (parseFilters f e ts) (parseFilters (f+1) e ts)
   simple : ∀ ts, FLe (parseSimple f ts) (parseSimple (f+1) ts)
   attrs : ∀ e ts, FLe (parseAttrs f e ts) (parseAttrs (f+1) e ts)
@@ -584,7 +612,7 @@ structure EMonoAt (f : Nat) : Prop where
 
 theorem emonoAt_zero : EMonoAt 0 := by
   constructor <;> intros <;> exact .inl (by simp [parseExpression, parseConditional, parseBinaryPrec,
-    parseLoop, parseTest, parseArgs, parseArgsLoop, parseOperand, parseSuffix, parseFilters, parseSimple,
+    parseLoop, parseTest, parseArgs, parseArgsLoop, parseOperand, parseSuffix, parseSubs, parseFilters, parseSimple,
     parseAttrs, parseMap, parseMapLoop])
 
 macro "efle" ih:ident : tactic => `(tactic| repeat' first
@@ -592,7 +620,7 @@ macro "efle" ih:ident : tactic => `(tactic| repeat' first
   | exact EMonoAt.expr $ih _ | exact EMonoAt.cond $ih _ _ | exact EMonoAt.bin $ih _ _
   | exact EMonoAt.loop $ih _ _ _ | exact EMonoAt.test $ih _ _ _ _ | exact EMonoAt.args $ih _ _ _
   | exact EMonoAt.argsLoop $ih _ _ _ | exact EMonoAt.operand $ih _ | exact EMonoAt.suffix $ih _ _
-  | exact EMonoAt.filters $ih _ _ | exact EMonoAt.simple $ih _ | exact EMonoAt.attrs $ih _ _
+  | exact EMonoAt.subs $ih _ _ | exact EMonoAt.filters $ih _ _ | exact EMonoAt.simple $ih _ | exact EMonoAt.attrs $ih _ _
   | exact EMonoAt.map $ih _ | exact EMonoAt.mapLoop $ih _
   | refine FLe.bind ?_ (fun ⟨_, _⟩ => ?_)
   | refine FLe.ite (fun _ => ?_) (fun _ => ?_)
@@ -609,6 +637,7 @@ theorem emonoAt_succ (f : Nat) (ih : EMonoAt f) : EMonoAt (f+1) where
   argsLoop close msg ts := by unfold parseArgsLoop; efle ih
   operand ts := by unfold parseOperand; efle ih
   suffix e ts := by unfold parseSuffix; efle ih
+  subs e ts := by unfold parseSubs; efle ih
   filters e ts := by unfold parseFilters; efle ih
   simple ts := by unfold parseSimple; efle ih
   attrs e ts := by unfold parseAttrs; efle ih
